@@ -52,8 +52,9 @@ def _ck(b):
     return (-sum(b)) & 0xff
 
 
-def fru_image():
-    """common header + chassis, board, product info areas (16 bytes each) + two multi-records"""
+def fru_image(mr=(4, 3), size=None):
+    """common header + chassis, board, product info areas (16 bytes each) + two multi-records with payloads of
+    mr[0] and mr[1] bytes; size: pad with zeros / cut to that many bytes (raw reads only)"""
     hdr = [1, 0, 1, 3, 5, 7, 0]
     hdr.append(_ck(hdr))
 
@@ -68,28 +69,45 @@ def fru_image():
     def mrec(typ, last, data):
         h = [typ, (0x80 if last else 0) | 2, len(data), _ck(data)]
         return h + [_ck(h)] + list(data)
-    multi = mrec(0x02, False, [1, 2, 3, 4]) + mrec(0x03, True, [9, 8, 7])
-    return bytes(hdr + chassis + board + product + multi)
+    multi = mrec(0x02, False, [(i * 7 + 1) & 0xff for i in range(mr[0])]) + mrec(0x03, True, [(9 - i) & 0xff for i in range(mr[1])])
+    img = hdr + chassis + board + product + multi
+    if size is not None:
+        img = (img + [(i * 5 + 3) & 0xff for i in range(size)])[:size]
+    return bytes(img)
 
 
-def sdr_records():
-    def mc(rid, name):
-        body = [0x40, 0x00, 0x00, 0x3f, 0, 0, 0, 0x07, 0x01, 0x00, 0xC0 | len(name)] + list(name)
-        return bytes([rid & 0xff, rid >> 8, 0x51, 0x12, len(body)] + body)
-    return {1: (mc(1, b'CONTROLLER-ONE-X'), 2), 2: (mc(2, b'SECOND'), 0xffff)}
+def sdr_records(payloads=None):
+    """payloads None: two management-controller locator records; else unknown-type records with those payload lengths"""
+    if payloads is None:
+        def mc(rid, name):
+            body = [0x40, 0x00, 0x00, 0x3f, 0, 0, 0, 0x07, 0x01, 0x00, 0xC0 | len(name)] + list(name)
+            return bytes([rid & 0xff, rid >> 8, 0x51, 0x12, len(body)] + body)
+        return {1: (mc(1, b'CONTROLLER-ONE-X'), 2), 2: (mc(2, b'SECOND'), 0xffff)}
+    out = {}
+    for i, n in enumerate(payloads):
+        rid = i + 1
+        out[rid] = (bytes([rid, 0, 0x51, 0x0a, n] + [(rid * 16 + j) & 0xff for j in range(n)]),
+                    rid + 1 if i + 1 < len(payloads) else 0xffff)
+    return out
 
 
-def sel_records():
-    def ev(rid, num):
-        return bytes([rid & 0xff, rid >> 8, 0x02, 1, 2, 3, 4, 0x20, 0x00, 0x04, 0x01, num, 0x01, 0x50, 0xff, 0xff])
-    return {1: (ev(1, 5), 2), 2: (ev(2, 6), 0xffff)}
+def sel_records(types=(0x02, 0x02)):
+    def ev(rid, typ):
+        return bytes([rid & 0xff, rid >> 8, typ, 1, 2, 3, 4, 0x20, 0x00, 0x04, 0x01, 4 + rid, 0x01, 0x50, 0xff, 0xff])
+    return {i + 1: (ev(i + 1, t), i + 2 if i + 1 < len(types) else 0xffff) for i, t in enumerate(types)}
 
 
 class Bmc0:
-    def __init__(self):
-        self.fru = fru_image()
-        self.sdr = sdr_records()
-        self.sel = sel_records()
+    """shape (all optional): fru_mr, fru_size, fru_max (largest read the FRU device serves), sdr (payload lengths),
+    sdr_max, sel (record types), sel_max (largest partial SEL read; None = whole records), hpm_mask (components
+    present), hpm_missing (property selectors answered 0x83)"""
+
+    def __init__(self, shape=None):
+        sh = shape or {}
+        self.sh = sh
+        self.fru = fru_image(tuple(sh.get('fru_mr', (4, 3))), sh.get('fru_size'))
+        self.sdr = sdr_records(sh.get('sdr'))
+        self.sel = sel_records(tuple(sh.get('sel', (0x02, 0x02))))
 
     def handle(self, netfn, cmd, lun, data, req):
         from pyipmi.msgs import create_message, encode_message
@@ -110,6 +128,8 @@ class Bmc0:
     def f_ReadFruData(self, req, rsp):
         if req.offset + req.count > len(self.fru):
             return 0xC9
+        if self.sh.get('fru_max') and req.count > self.sh['fru_max']:
+            return 0xCA
         d = self.fru[req.offset:req.offset + req.count]
         rsp.count = len(d)
         rsp.data = d
@@ -123,6 +143,8 @@ class Bmc0:
         if rid not in self.sdr:
             return 0xCB
         rec, nxt = self.sdr[rid]
+        if self.sh.get('sdr_max') and req.bytes_to_read > self.sh['sdr_max']:
+            return 0xCA
         rsp.next_record_id = nxt
         n = req.bytes_to_read
         rsp.record_data = rec[req.offset:] if n == 0xff else rec[req.offset:req.offset + n]
@@ -149,6 +171,8 @@ class Bmc0:
         if rid not in self.sel:
             return 0xCB
         rec, nxt = self.sel[rid]
+        if self.sh.get('sel_max') and req.length > self.sh['sel_max']:
+            return 0xCA
         rsp.next_record_id = nxt
         n = req.length
         rsp.record_data = rec[req.offset:] if n == 0xff else rec[req.offset:req.offset + n]
@@ -159,9 +183,11 @@ class Bmc0:
     # -- HPM.1
     def f_GetTargetUpgradeCapabilities(self, req, rsp):
         rsp.hpm_1_version = 1
-        rsp.component_present = 0x01
+        rsp.component_present = self.sh.get('hpm_mask', 0x01)
 
     def f_GetComponentProperties(self, req, rsp):
+        if req.selector in self.sh.get('hpm_missing', ()):
+            return 0x83
         rsp.data = {0: bytes([0x0e]), 1: bytes([1, 0x23, 0, 0, 0, 1]), 2: b'BOOT\x00\x00\x00\x00\x00\x00\x00\x00',
                     3: bytes([1, 0x22, 0, 0, 0, 0]), 4: bytes([1, 0x24, 0, 0, 0, 2])}.get(req.selector, b'\x00')
 
@@ -302,12 +328,14 @@ OPARGS = {
 }
 
 
-def build_args(opname):
+def build_args(opname, shape=None):
     import inspect
     import pyipmi
     fn = getattr(pyipmi.Ipmi, opname)
     sig = inspect.signature(fn)
-    over = OPARGS.get(opname, {})
+    over = dict(OPARGS.get(opname, {}))
+    for k, v in ((shape or {}).get('args') or {}).items():
+        over[k] = (lambda x: (lambda: bytes.fromhex(x[4:]) if isinstance(x, str) and x.startswith('hex:') else x))(v)
     kw = {}
     for pname, p in sig.parameters.items():
         if pname == 'self' or p.kind in (p.VAR_POSITIONAL, p.VAR_KEYWORD):
@@ -324,12 +352,12 @@ def build_args(opname):
 # ------------------------------------------------------------------------------------------
 # running one case
 # ------------------------------------------------------------------------------------------
-def run_case(opname, faults):
-    """faults: {exchange index: (cc, mode)}, mode in decoded | decoded+data | raised.
+def run_case(opname, faults, shape=None):
+    """faults: {exchange index: (cc, mode)}, mode in decoded | decoded+data | raised; shape: device content.
     Returns (outcome, log): outcome = ('ok', canonical value) | ('exc', class, text, exc_class)"""
     import types
     import pyipmi.errors as E
-    dev = Bmc0()
+    dev = Bmc0(shape)
     n = [0]
 
     def handler(netfn, cmd, lun, data, req):
@@ -347,7 +375,7 @@ def run_case(opname, faults):
             return bytes([cc])
         return dev.handle(netfn, cmd, lun, data, req)
     ipmi, itf = F.connect(handler)
-    kw = build_args(opname)
+    kw = build_args(opname, shape)
     with A.patched_time():
         try:
             v = getattr(ipmi, opname)(**kw)
@@ -408,7 +436,7 @@ def reissued(log, k):
     return False
 
 
-def judge(opname, base, out, log, faults):
+def judge(opname, base, out, log, faults, shape=None):
     """None when the property holds on this run, else (kind, text)"""
     ks = sorted(faults)
     consumed = [k for k in ks if k < len(log)]
@@ -417,6 +445,8 @@ def judge(opname, base, out, log, faults):
     ccs = {faults[k][0] for k in consumed}
     if out[0] == 'exc':
         cls = out[1]
+        if base[0] == 'exc' and out[1] == base[1] and all(adapted(log, j, faults[j]) for j in consumed):
+            return None      # the faults were retried / adapted; the device itself refuses a later request, as without them
         if cls.startswith('CCError'):
             got = int(cls.split()[1])
             if got in ccs:
@@ -436,12 +466,13 @@ def judge(opname, base, out, log, faults):
     if mode == 'raised' and cc != 0xC0 and len(log) > k + 1 and log[k + 1].canon()[:4] == log[k].canon()[:4] \
             and (log[k].netfn, log[k].cmd) not in AUX:
         # Ipmi.send_message swallowed a non-busy code raised by the transport and sent the request again
-        if not _loop_reissues(opname, k, cc):
+        if not _loop_reissues(opname, k, cc, shape):
             return ('send_message:resend-after-non-busy',
                     'CompletionCodeError(0x%02x) raised by the interface at request %d was swallowed and the '
                     'request sent again' % (cc, k))
-    if (opname, cc) in SKIPS and base[0] == 'ok' and isinstance(base[1], list) and len(consumed) == 1 and k < len(base[1]):
-        want = base[1][:k] + base[1][k + 1:]
+    if (opname, cc) in SKIPS and base[0] == 'ok' and isinstance(base[1], list) and len(consumed) == 1:
+        # request k asks for property selector k: the result is the fault-free one without that property
+        want = [x for x in base[1] if SEL_OF.get(x.get('__class__')) != k]
         if out[1] == want:
             return None
         return ('different-value', 'returned %s, expected the fault-free result without entry %d'
@@ -459,12 +490,12 @@ def judge(opname, base, out, log, faults):
 _LOOP_CACHE = {}
 
 
-def _loop_reissues(opname, k, cc):
+def _loop_reissues(opname, k, cc, shape=None):
     """does the operation itself (not send_message) re-issue request k after this code when the code comes in
     the decoded response?  (then a re-send in raised mode is the operation's documented adaptation)"""
-    key = (opname, k, cc)
+    key = (opname, k, cc, json.dumps(shape, sort_keys=True))
     if key not in _LOOP_CACHE:
-        out, log = run_case(opname, {k: (cc, 'decoded')})
+        out, log = run_case(opname, {k: (cc, 'decoded')}, shape)
         _LOOP_CACHE[key] = out[0] == 'ok' and len(log) > k + 1 and reissued(log, k)
     return _LOOP_CACHE[key]
 
@@ -478,11 +509,12 @@ def vkey(kind, opname, log, k):
 
 def oracle_fault(inp):
     faults = {int(k): (v[0], v[1]) for k, v in inp['faults'].items()}
-    base, blog = run_case(inp['op'], {})
+    shape = inp.get('shape')
+    base, blog = run_case(inp['op'], {}, shape)
     if not faults:
         return baseline_problem(inp['op'], base)
-    out, log = run_case(inp['op'], faults)
-    r = judge(inp['op'], base, out, log, faults)
+    out, log = run_case(inp['op'], faults, shape)
+    r = judge(inp['op'], base, out, log, faults, shape)
     return None if r is None else '%s: %s' % (inp['op'], r[1])
 
 
@@ -501,6 +533,61 @@ def replay(data):
 
 
 # ------------------------------------------------------------------------------------------
+# ------------------------------------------------------------------------------------------
+# device content shapes: the fault sweep of an operation that reads device content is repeated on several
+# contents (sizes at and around the chunk boundaries, device read limits, record counts and kinds)
+# ------------------------------------------------------------------------------------------
+SHAPE_CCS = [0x01, 0x80, 0x83, 0xC0, 0xC3, 0xC5, 0xC8, 0xC9, 0xCA, 0xCE, 0xFF]
+FRU_SIZES = [1, 2, 31, 32, 33, 34, 63, 64, 65, 66, 98, 255, 256]
+FRU_MR = [(10, 13), (10, 14), (30, 25), (30, 26), (44, 44), (0, 0), (1, 250)]
+SDR_PAY = [(0,), (1,), (15,), (16,), (20,), (59,), (250,), (255,), (3, 0, 40, 16)]
+SEL_TYPES = [(), (0x02,), (0xC0, 0xE0, 0x02), (0x02, 0x02, 0x02, 0x02, 0x02)]
+SDR_OPS = ['get_repository_sdr', 'get_device_sdr', 'sdr_repository_entries', 'get_repository_sdr_list',
+           'device_sdr_entries', 'get_device_sdr_list']
+SEL_OPS = ['get_sel_entry', 'get_sel_entries', 'sel_entries', 'get_and_clear_sel_entry', 'get_sel_entries_count']
+HPM_OPS = ['get_component_properties', 'find_component_id_by_descriptor', 'preparation_stage',
+           'install_component_from_image', 'install_component_from_file']
+
+
+def shapes_for(opname, rng, quick):
+    out = []
+    if opname in ('read_fru_data', 'read_fru_data_full'):
+        out = [{'fru_size': n} for n in FRU_SIZES] + [{'fru_size': 66, 'fru_max': 16}, {'fru_size': 33, 'fru_max': 7},
+                                                      {'fru_size': 98, 'fru_max': 31}]
+        if opname == 'read_fru_data':
+            out += [{'args': {'offset': o, 'count': c}} for o, c in ((0, 33), (5, 34), (7, 1), (2, 2), (1, 65), (40, 33))]
+        if quick:
+            pick = [{'fru_size': rng.choice([33, 34, 65, 66, 98])}, {'fru_size': rng.choice([1, 2, 31, 32])},
+                    {'fru_size': rng.choice([63, 64, 255, 256])}, rng.choice(out[len(FRU_SIZES):])]
+            out = pick
+    elif opname in ('get_fru_multirecord_area', 'get_fru_inventory'):
+        out = [{'fru_mr': list(m)} for m in FRU_MR] + [{'fru_mr': [10, 13], 'fru_max': 16}, {'fru_max': 7}]
+        if quick:
+            out = [{'fru_mr': list(rng.choice(FRU_MR[:4]))}, {'fru_mr': list(rng.choice(FRU_MR[4:]))}, rng.choice(out[len(FRU_MR):])]
+    elif opname in ('get_fru_chassis_area', 'get_fru_board_area', 'get_fru_product_area', 'get_fru_inventory_header'):
+        out = [{'fru_max': 16}, {'fru_max': 7}]
+        if quick:
+            out = [rng.choice(out)]
+    elif opname == 'write_fru_data':
+        out = [{'args': {'data': 'hex:' + bytes(range(1, n + 1)).hex()}} for n in (1, 15, 16, 17, 33)]
+        if quick:
+            out = rng.sample(out, 2)
+    elif opname in SDR_OPS:
+        out = [{'sdr': list(p)} for p in SDR_PAY] + [{'sdr_max': 16}, {'sdr': [59], 'sdr_max': 10}]
+        if quick:
+            out = [{'sdr': list(rng.choice(SDR_PAY[:5]))}, {'sdr': list(rng.choice(SDR_PAY[5:]))}, rng.choice(out[len(SDR_PAY):])]
+    elif opname in SEL_OPS:
+        out = [{'sel': list(t)} for t in SEL_TYPES] + [{'sel_max': 16}, {'sel_max': 8, 'sel': [0xC0, 0x02]}]
+        if quick:
+            out = [{'sel': list(rng.choice(SEL_TYPES))}, rng.choice(out[len(SEL_TYPES):])]
+    elif opname in HPM_OPS:
+        out = [{'hpm_missing': [3, 4]}, {'hpm_missing': [1, 3, 4]}, {'hpm_missing': [0, 1, 2, 3, 4]}, {'hpm_mask': 0x05},
+               {'hpm_mask': 0xff, 'hpm_missing': [2]}]
+        if quick:
+            out = rng.sample(out, 2)
+    return out
+
+
 def c_obs(out):
     return 'None' if out[0] == 'ok' else '(Some %s)' % C.c_err(out[3])
 
@@ -607,6 +694,30 @@ def run(ctx):
                 if r is not None:
                     violation(vkey(r[0], opname, log, k1), '%s: %s' % (opname, r[1]),
                               {'op': opname, 'faults': {str(k): list(v) for k, v in faults.items()}})
+        # the same sweep on other device contents (sizes around the chunk boundaries, device read limits, ...):
+        # the faulted outcome is compared with the fault-free outcome ON THE SAME content
+        for shape in shapes_for(opname, rng, q):
+            sbase, slog = run_case(opname, {}, shape)
+            res.evaluations += 1
+            sn = len(slog)
+            if baseline_problem(opname, sbase):
+                violation('baseline:%s' % re.sub(r'0x[0-9a-f]+', '', sbase[2]), baseline_problem(opname, sbase) +
+                          ' (device content %s)' % json.dumps(shape), {'op': opname, 'faults': {}, 'shape': shape})
+                continue
+            sidx = list(range(sn))
+            if sn > (8 if q else 40):
+                sidx = sorted(set(sidx[:2] + sidx[-3:] + rng.sample(sidx, 3 if q else 35)))
+            for k in sidx:
+                for cc in SHAPE_CCS:
+                    for mode in ('decoded', 'raised'):
+                        faults = {k: (cc, mode)}
+                        out, log = run_case(opname, faults, shape)
+                        res.evaluations += 1
+                        D.add((opname, json.dumps(shape, sort_keys=True), k, cc, mode), True, 'content-shape')
+                        r = judge(opname, sbase, out, log, faults, shape)
+                        if r is not None:
+                            violation(vkey(r[0], opname, log, k), '%s (device content %s): %s' % (opname, json.dumps(shape), r[1]),
+                                      {'op': opname, 'faults': {str(k): [cc, mode]}, 'shape': shape})
     # Ipmi.send_message alone against its hand model: sequences of raised busy / other codes / answers
     from pyipmi.msgs import create_request_by_name
     seqs = []
@@ -657,8 +768,9 @@ def run(ctx):
     res.rule = ('every public callable of pyipmi.Ipmi (introspection) x request index (all when <= %d, else first 4, last 3 '
                 'and a random sample) x completion code x {decoded response carrying the code, CompletionCodeError raised '
                 'by the interface%s}; baseline run per operation; %ssend_message alone on busy/other/timeout sequences for '
-                'retry budgets 0..4. non-trivial = the operation issues at least one request'
-                % (10 if q else 40, '' if q else ', code followed by the normal data', '' if q else '12 double faults per operation; '))
+                'retry budgets 0..4; operations that read device content (FRU, SDR, SEL, HPM properties) are swept again on %s other contents each (FRU sizes 1..256 incl. 33/34/65/66/98, multi-record lengths, device read limits, SDR payloads 0..255 and 1..4 records, SEL logs of 0..5 entries, HPM property subsets) with the adaptation codes. non-trivial = the operation issues at least one request'
+                % (10 if q else 40, '' if q else ', code followed by the normal data', '' if q else '12 double faults per operation; ',
+                   '2-4 sampled' if q else 'all listed'))
     pick = [i for i, m in enumerate(meta) if m[0] == 'fault']
     res.samples = [{'term': terms[i][:300], 'case': meta[i]} for i in pick[:2] + pick[len(pick) // 2:len(pick) // 2 + 2]]
     return res
